@@ -84,31 +84,31 @@ func init() {
 		})
 	clusterCheck("C07",
 		func() []Unit {
-			return append([]Unit{{Name: "enum-nextconfiguration", Enum: enumC07}}, scUnits(1, "member", "member-race", "member-trunc5", "member-sor", "transfer")...)
+			return append([]Unit{{Name: "enum-nextconfiguration", Enum: enumC07}}, scUnits(1, "member", "member-race", "member-trunc5", "member-sor", "transfer", "rcl3-after")...)
 		},
 		func() []Unit {
-			return append([]Unit{{Name: "enum-nextconfiguration", Enum: enumC07}}, scUnits(2, "member", "member-race", "member-trunc5", "member-sor", "transfer", "crash3")...)
+			return append([]Unit{{Name: "enum-nextconfiguration", Enum: enumC07}}, scUnits(2, "member", "member-race", "member-trunc5", "member-sor", "transfer", "crash3", "rcl3-after")...)
 		})
 	clusterCheck("C08",
 		func() []Unit {
-			return cat(scUnits(1, "write3", "write3-slowfsm", "write3-pipe", "crash3", "crash3-slowfsm", "transfer", "transfer-pipe", "majority-restart", "batch-mix", "batch-mix-plain"), scUnits(2, "apply-fine1", "apply-fine1-batching"))
+			return cat(scUnits(1, "write3", "write3-slowfsm", "write3-pipe", "crash3", "crash3-slowfsm", "transfer", "transfer-pipe", "majority-restart", "batch-mix", "batch-mix-plain", "batch-lag", "batch-lag-plain"), scUnits(2, "apply-fine1", "apply-fine1-batching"))
 		},
 		func() []Unit {
-			return cat(scUnits(2, "write3", "write3-slowfsm", "write3-pipe", "crash3", "crash3-slowfsm", "transfer", "transfer-slowfsm", "transfer-pipe", "majority-restart", "fig8", "batch-mix", "batch-mix-plain", "batch-mix-cfgstore"), scUnits(3, "apply-fine1", "apply-fine1-batching"))
+			return cat(scUnits(2, "write3", "write3-slowfsm", "write3-pipe", "crash3", "crash3-slowfsm", "transfer", "transfer-slowfsm", "transfer-pipe", "majority-restart", "fig8", "batch-mix", "batch-mix-plain", "batch-mix-cfgstore", "batch-lag", "batch-lag-plain"), scUnits(3, "apply-fine1", "apply-fine1-batching"))
 		})
 	clusterCheck("C10",
 		func() []Unit {
-			return scUnits(1, "write3", "crash3", "majority-restart", "member", "snap3", "snap3-mono", "snap3-inmem", "crash3-inmem", "majority-restart-inmem", "stale-suffix-batch1", "rcl1", "rcl3", "rcl3-snap", "rcl1-many", "rcl1-130")
+			return scUnits(1, "write3", "crash3", "majority-restart", "member", "snap3", "snap3-mono", "snap3-inmem", "crash3-inmem", "majority-restart-inmem", "stale-suffix-batch1", "snap-member-slowfsm", "rcl1", "rcl3", "rcl3-snap", "rcl1-many", "rcl1-130", "rcl1-after", "rcl3-after")
 		},
 		func() []Unit {
-			return scUnits(2, "write3", "crash3", "majority-restart", "member", "snap3", "snap3-mono", "snap3-inmem", "crash3-inmem", "majority-restart-inmem", "stale-suffix", "rcl1", "rcl3", "rcl3-snap", "rcl1-many", "rcl1-130")
+			return scUnits(2, "write3", "crash3", "majority-restart", "member", "snap3", "snap3-mono", "snap3-inmem", "crash3-inmem", "majority-restart-inmem", "stale-suffix", "snap-member-slowfsm", "rcl1", "rcl3", "rcl3-snap", "rcl1-many", "rcl1-130", "rcl1-after", "rcl3-after")
 		})
 	clusterCheck("C11",
 		func() []Unit {
-			return append([]Unit{{Name: "enum-compaction", Enum: enumC11}}, scUnits(1, "snap3", "snap3-trail1", "snap3-mono", "stale-suffix", "stale-suffix-trail", "member", "snap-member-slowfsm", "autosnap3")...)
+			return append([]Unit{{Name: "enum-compaction", Enum: enumC11}}, scUnits(1, "snap3", "snap3-trail1", "snap3-mono", "stale-suffix", "stale-suffix-trail", "member", "snap-member-slowfsm", "autosnap3", "rcl3-snap", "rcl1-many", "rcl1-after", "rcl3-after")...)
 		},
 		func() []Unit {
-			return append([]Unit{{Name: "enum-compaction", Enum: enumC11}}, scUnits(2, "snap3", "snap3-trail1", "snap3-mono", "stale-suffix", "stale-suffix-trail", "member", "snap-member-slowfsm", "autosnap3", "crash3")...)
+			return append([]Unit{{Name: "enum-compaction", Enum: enumC11}}, scUnits(2, "snap3", "snap3-trail1", "snap3-mono", "stale-suffix", "stale-suffix-trail", "member", "snap-member-slowfsm", "autosnap3", "crash3", "rcl3-snap", "rcl1-many", "rcl1-after", "rcl3-after")...)
 		})
 	timedAssumptions := []string{
 		"timed regime: virtual clock, timers fire strictly in deadline order, thread steps and message delivery take no virtual time",
@@ -146,7 +146,7 @@ func init() {
 				us = append(us, scUnit("shutdown-"+k+"-batch", b))
 			}
 		}
-		us = append(us, scUnit("stepdown-calls", b), scUnit("verify-deposed", 1))
+		us = append(us, scUnit("stepdown-calls", b), scUnit("verify-deposed", 1), scUnit("rcl1-after", 1), scUnit("rcl3-after", 1))
 		if tier == "thorough" {
 			us = append(us, scUnits(1, "write3", "crash3", "transfer", "member")...)
 		}
